@@ -11,6 +11,7 @@ import (
 	"golang.org/x/tools/go/ssa"
 
 	"verif/internal/core"
+	"verif/internal/tmpl"
 )
 
 // checkConstPtrAgree (CONSTPTR-AGREE): the struct templates assign
@@ -221,7 +222,7 @@ func joinKeys(m map[string]bool) string {
 	return strings.Join(ks, "|")
 }
 
-// checkTypedefTransparent (PRED-ROOT): a typedef is transparent — a field of
+// checkTypedefTransparent (PRED-ROOT), for predicates bound as template functions: a typedef is transparent — a field of
 // type `typedef list<string> Names` is a list field. Every predicate of package
 // gen that classifies a compile.TypeSpec (func(TypeSpec) bool) must therefore
 // give, for each root kind, the same answer for the type itself and for a
@@ -231,11 +232,30 @@ func joinKeys(m map[string]bool) string {
 func checkTypedefTransparent(c *core.Ctx, l *core.Ledger, rule string) {
 	ka := newKindAnalysis(c)
 	n := 0
+	// only predicates the templates consult (bound in a template function table): a plain Go helper may
+	// distinguish a type from its alias on purpose where both answers generate equivalent code
+	mod := tmpl.Extract(c)
+	bound := map[*types.Func]bool{}
+	for _, b := range mod.Global {
+		if b != nil && b.Obj != nil {
+			bound[b.Obj] = true
+		}
+	}
+	for _, t := range mod.Templates {
+		for _, b := range t.Funcs {
+			if b != nil && b.Obj != nil {
+				bound[b.Obj] = true
+			}
+		}
+	}
 	for _, f := range c.AllFuncs("gen") {
 		if c.IsTestFile(f.Pos()) || f.Parent() != nil || f.Signature.Recv() != nil || len(f.Params) != 1 {
 			continue
 		}
 		if !types.Identical(f.Params[0].Type(), ka.tsType) {
+			continue
+		}
+		if o, ok := f.Object().(*types.Func); !ok || !bound[o] {
 			continue
 		}
 		tab := ka.predicateTable(f)
